@@ -1266,7 +1266,7 @@ def _route_wiring_replay(v, asgi, suffix, kw):
             pass
 
     clauses = ['no-exception', 'method-map-is-built-from-the-resource-and-the-route-suffix', 'defaults-are-filled-in-the-flavour-of-the-app',
-               'responder-flavour-is-validated', 'route-node-carries-that-method-map-and-resource']
+               'responder-flavour-is-validated', 'route-node-carries-that-method-map-and-resource', 'wiring-itself-adds-and-removes-no-responder']
     res = AsyncThing() if asgi else SyncThing()
     app = v.real(AAPP if asgi else APP)()
     out = v.call(app, '/things', res, target=(AAPP if asgi else APP) + '.add_route', **kw)
@@ -1280,6 +1280,8 @@ def _route_wiring_replay(v, asgi, suffix, kw):
     v.check('method-map-is-built-from-the-resource-and-the-route-suffix', mm.get('GET') == (res.on_get_items if suffix else res.on_get))
     v.check('defaults-are-filled-in-the-flavour-of-the-app', 'POST' in mm and inspect.iscoroutinefunction(mm['POST']) == asgi)
     v.check('route-node-carries-that-method-map-and-resource', resource is res and tmpl == '/things')
+    mine = (res.on_get, res.on_get_items)
+    v.check('wiring-itself-adds-and-removes-no-responder', all((r in mine) == (m == 'GET') for m, r in mm.items()))
 
 
 for _a in (0, 1):
